@@ -236,6 +236,39 @@ def rom_cases(ctx, rng):
                                           simcls.__name__, a, kind, real['trace'].get('rd')),
                                       {'kind': 'rom', 'data': kind, 'aw': aw, 'dw': dw, 'addr': a})
                         break
+        # ... and after copy_block / synthesize / optimize (the property names them)
+        okaddrs = [a for a in addrs if a in defined or pad]
+        variants = []
+        try:
+            variants.append(('copy_block', passlib.run_in(blk, lambda: pyrtl.copy_block(blk, update_working_block=False))))
+            bs = passlib.run_in(blk, lambda: pyrtl.synthesize(update_working_block=False, block=blk))
+            variants.append(('synthesize', bs))
+            variants.append(('synthesize+optimize', passlib.run_in(bs, lambda: pyrtl.optimize(update_working_block=False, block=bs))))
+        except Exception as e:  # noqa
+            ctx.violation('rom-pass-raises', 'copy/synthesize/optimize of a ROM design (%s data, pad_with_zeros=%s) raised %s: %s' % (
+                kind, pad, type(e).__name__, str(e)[:120]), {'kind': 'rom', 'data': kind, 'aw': aw, 'dw': dw})
+        for vname, vb in variants:
+            inm = sorted(w.name for w in vb.wirevector_subset(Input))
+            bad = None
+            for a in okaddrs:
+                if len(inm) == 1:
+                    st = {inm[0]: a}
+                else:
+                    st = {nm: (a >> int(nm[nm.index('[') + 1:-1])) & 1 for nm in inm}
+                real = simrun.run_real(pyrtl.Simulation, vb, [st], {}, {}, 0, track=None)
+                n += 1
+                want = vals[a] if a in defined else 0
+                outs = sorted(w.name for w in vb.wirevector_subset(Output))
+                if real['err'] is not None:
+                    bad = (a, 'raises %s' % (real['err'][2][:60],), want)
+                    break
+                got = real['trace'][outs[0]][0] if len(outs) == 1 else sum(real['trace'][nm][0] << int(nm[nm.index('[') + 1:-1]) for nm in outs)
+                if got != want:
+                    bad = (a, got, want)
+                    break
+            if bad:
+                ctx.violation('rom-read-after:' + vname, 'ROM (%s data, pad_with_zeros=%s) after %s: address %d gives %r, romdata gives %d' % (
+                    kind, pad, vname, bad[0], bad[1], bad[2]), {'kind': 'rom', 'data': kind, 'aw': aw, 'dw': dw, 'addr': bad[0], 'after': vname})
         ctx.count('rom-data-kind', kind)
     # a ROM word that does not fit its bitwidth must be refused
     pyrtl.reset_working_block()
@@ -256,7 +289,7 @@ def main(ctx):
     rng = ctx.rng
     n = ctx.n(60, 1200)
     agree = 0
-    for k in range(n):
+    for k in ctx.loop(n):
         aw = rng.choice([1, 2, 3, 5, 9, 9, 10, 16, 33, 64, 70] if k % 2 == 0 else [1, 2, 3])
         dw = rng.choice([1, 2, 7, 8, 32, 63, 64, 65, 70])
         nrd, nwr = rng.randint(1, 3), rng.randint(1, 3)
